@@ -18,7 +18,7 @@ from saml2_tophat import BINDING_HTTP_POST as POST, BINDING_HTTP_REDIRECT as RED
 from saml2_tophat import BINDING_HTTP_ARTIFACT as ARTIFACT, BINDING_SOAP as SOAP, BINDING_PAOS as PAOS
 
 CLAIM = {
-    "text": "Coq theorems (Props/C09.v) over an executable model of Entity.response_args / pick_binding and MetadataStore.service (None vs [] vs list, several sources, UnknownSystemEntity vs swallowed UnsupportedBinding, the independent getattr reads of _url/_index, binding list derivation, destinations(srvs)[0], message-type dispatch and SOAP short-cut): for EVERY metadata store, configuration, request, bindings argument and descr_type, any (binding, destination) produced is an endpoint the metadata registers for the stripped issuer under the consulted role and service (or the empty back-channel destination of the bindings==[SOAP] short-cut); a supplied consumer URL is answered only when string-equal to a registered location and otherwise the result is an error (never that URL), and a URL registered in the effective endpoint list is honoured; an issuer without that role in metadata always yields an error. The index half holds too (C09_index, C09_unknown_index_refused): an AuthnRequest naming an index and no URL is answered only to an endpoint carrying exactly that index, an unknown index is refused; for the code before the repair fix: 05de9b7d the file keeps the refutation (C09_index_before_fix_refuted, witness) about the separately named response_args_before_fix. Tie to the code: exhaustive cross product of small metadata layouts x request variants (URL registered / unregistered / near-miss, index, protocol binding, issuer, bindings argument, AuthnRequest / LogoutRequest / other message classes) through the real Server.response_args and pick_binding on every run, random larger layouts on top.",
+    "text": "Coq theorems (Props/C09.v) over an executable model of Entity.response_args / pick_binding and MetadataStore.service (None vs [] vs list, several sources, UnknownSystemEntity vs swallowed UnsupportedBinding, the independent getattr reads of _url/_index, binding list derivation, destinations(srvs)[0], message-type dispatch and SOAP short-cut): for EVERY metadata store, configuration, request, bindings argument and descr_type, any (binding, destination) produced is an endpoint the metadata registers for the stripped issuer under the consulted role and service (or the empty back-channel destination of the bindings==[SOAP] short-cut); a supplied consumer URL is answered only when string-equal to a registered location and otherwise the result is an error (never that URL), and a URL registered in the effective endpoint list is honoured; an issuer without that role in metadata always yields an error. The index half holds too (C09_index, C09_unknown_index_refused): an AuthnRequest naming an index and no URL is answered only to an endpoint carrying exactly that index, an unknown index is refused; for the code before the repair fix: 05de9b7d the file keeps the refutation (C09_index_before_fix_refuted, witness) about the separately named response_args_before_fix. Binding strings and entity ids that contain each other (C09_contained_binding_differs, C09_answered_binding_admitted, C09_no_equal_binding_refused, C09_contained_binding_refused, C09_contained_entity_id_refused): the answered binding is an element of the admitted binding list and exactly the registered endpoint's binding string; a proper super-/sub-string (HTTP-POST-SimpleSign vs HTTP-POST, trailing slash/space, the prefix ...:HTTP) is a different binding, and an issuer whose endpoints (or whose look-alike entity ids) only contain / are contained in the admitted ones is refused. Tie to the code: exhaustive cross product of small metadata layouts x request variants (URL registered / unregistered / near-miss, index, protocol binding, issuer, bindings argument, AuthnRequest / LogoutRequest / other message classes) through the real Server.response_args and pick_binding on every run, random larger layouts on top; 34 layouts with endpoints under super-/sub-string and case-variant binding strings x 14 ProtocolBinding values x 26 bindings arguments x 4 preferred_binding tables, and 6 multi-source layouts with entity ids differing by trailing slash / case / one character x 9 issuers (oracle keys binding-string-not-exact, other-entity-endpoint).",
     "note": "Trusted: Coq kernel + vm_compute; the hand-written model is tied to the code by the correspondence (exhaustive for the small layouts, compared at answered-to/refused granularity plus exact binding and destination); str.strip() is modelled by Python's isspace code-point set; metadata loading itself (XML -> store) is C16's subject and enters here only through generated, valid, single-protocol descriptors. Finding F4 (pick_binding read <service>_index only when the request class lacked <service>_url, so an unknown AssertionConsumerServiceIndex was answered to the default endpoint) was found by this check and repaired in /repo (fix: 05de9b7d; known_findings.json 'fixed'); the oracle key acs-index-not-consulted:pick_binding reports it again if it returns. When a request carries both a URL and an index the URL decides and the index is not consulted (modelled; the statement's 'honoured only if registered' holds for the URL).",
     "technique": "machine-checked proof (Coq) + exhaustive small-scope and random model/implementation correspondence + implementation-level oracle",
 }
@@ -422,7 +422,15 @@ def observe(x):
 # ---------------------------------------------------------------------------
 # the property, stated on the implementation's answers (no model involved)
 # ---------------------------------------------------------------------------
-def oracle(ctx, layout, lid, r, got, site="response_args"):
+def related(x, y):
+    """two different strings one of which contains the other, or equal up to case / surrounding space / trailing slash"""
+    if x is None or y is None or x == y:
+        return False
+    nx, ny = x.strip().rstrip("/").lower(), y.strip().rstrip("/").lower()
+    return nx == ny or (x != "" and x in y) or (y != "" and y in x) or (nx != "" and (nx in ny or ny in nx))
+
+
+def oracle(ctx, layout, lid, r, got, site="response_args", over=None):
     kind = r["kind"]
     typ = KIND_SERVICE.get(kind)
     answered = isinstance(got, list)
@@ -449,6 +457,22 @@ def oracle(ctx, layout, lid, r, got, site="response_args"):
                         dict(layout=layout, request=r))
         return
     if (b, d) not in [(rb, rl) for rb, rl, _ in regs]:
+        # the answered binding must be the registered endpoint's binding STRING, exactly: the destination is
+        # registered, but only under a binding that contains / is contained in / differs in case from the answered one
+        near = [rb for rb, rl, _ in regs if rl == d and rb != b and related(rb, b)]
+        if near:
+            ctx.oracle_fail("binding-string-not-exact:%s:%s:%s" % (shape, tagtxt, ":".join(map(str, tg[3:5]))),
+                            "answered (%r, %r) but %r is registered for %s only under binding %r (a different string)"
+                            % (b, d, d, eid, near), dict(layout=layout, request=r, over=over))
+            return
+        # ... or the pair belongs to an entity whose id merely resembles the issuer (trailing slash, case, prefix)
+        alike = sorted(set(e["eid"] for src in layout for e in src if e["eid"] != eid and related(e["eid"], eid or "")
+                           and (b, d) in [(rb, rl) for rb, rl, _ in registered(layout, e["eid"], role, typ)]))
+        if alike:
+            ctx.oracle_fail("other-entity-endpoint:%s:%s" % (shape, tagtxt),
+                            "issuer %r answered with (%r, %r), which is registered for %r, not for the issuer" % (eid, b, d, alike),
+                            dict(layout=layout, request=r, over=over))
+            return
         ctx.oracle_fail("unregistered-endpoint:%s:%s" % (shape, tagtxt),
                         "(binding, destination) %r is not an endpoint registered for %s (%s, %s)" % (got, eid, role, typ),
                         dict(layout=layout, request=r))
@@ -577,9 +601,17 @@ def run(ctx):
         ctx.broken.append(("preferred_binding", "identically configured IdPs report different preferred_binding tables: %r" % sorted(prefs)))
     ctx.correspond("response_args", "Model.PickBinding", model, "(nat * request * option (list str) * str)", cases,
                    shard=400 if ctx.quick else 1500, timeout=900)
-    run_configs(ctx)
-    run_pick_binding(ctx)
-    run_parsed(ctx)
+    import time as _t
+    _T = [_t.time()]
+    def _tick(n):
+        if os.environ.get("C09_TIMING"):
+            print("  [timing] %s %.1fs" % (n, _t.time() - _T[0]))
+        _T[0] = _t.time()
+    _tick("main")
+    run_configs(ctx); _tick("configs")
+    run_pick_binding(ctx); _tick("pick_binding")
+    run_parsed(ctx); _tick("parsed")
+    run_bindstr(ctx); _tick("bindstr")
 
 
 def run_configs(ctx):
@@ -612,6 +644,234 @@ def run_configs(ctx):
              "match c with (p, r, bs, dt) => %s (idp_config p, md, r, bs, dt) end" % (lt, fn))
     ctx.correspond("response_args_preferred_binding", "Model.PickBinding", model,
                    "(list (svc * list str) * request * option (list str) * str)", cases, shard=400)
+
+
+# ---------------------------------------------------------------------------
+# binding strings / entity ids that contain each other
+# ---------------------------------------------------------------------------
+BASE = "urn:oasis:names:tc:SAML:2.0:bindings:"
+SS = POST + "-SimpleSign"            # registered HTTP-POST is a proper prefix of it
+B_HTTP = BASE + "HTTP"               # proper prefix of POST / REDIRECT / ARTIFACT
+POST_SL = POST + "/"
+POST_LC, POST_UC = POST.lower(), POST.upper()
+REDIR_LC = BASE + "HTTP-redirect"
+# binding strings a metadata endpoint can carry (the loader strips surrounding white space, so padded
+# strings only occur in requests)
+MD_BINDINGS = [SS, B_HTTP, POST_SL, POST_LC, POST_UC, "HTTP-POST", REDIR_LC]
+REQ_BINDINGS = [("post", POST), ("simplesign", SS), ("http-prefix", B_HTTP), ("post-slash", POST_SL), ("post-lower", POST_LC),
+                ("post-upper", POST_UC), ("post-space", POST + " "), ("space-post", " " + POST), ("post-chopped", POST[:-1]),
+                ("post-suffix", "HTTP-POST"), ("redirect", REDIRECT), ("redirect-lower", REDIR_LC), ("base", BASE)]
+SOAPISH = [("soap-space", [SOAP + " "]), ("soap-lower", [SOAP.lower()]), ("soap-ext", [SOAP + "-x"]), ("soap-chopped", [SOAP[:-1]]),
+           ("soap-soap", [SOAP, SOAP]), ("soap-slash", [SOAP + "/"]), ("paos-soap", [PAOS, SOAP])]
+SP1_SL, SP1_UC, SP1_HOST = SP1 + "/", SP1.upper(), SP1.replace("sp.example.org", "SP.example.org")
+EID_ACS = {SP1: "https://sp.example.org/acs/a", SP1_SL: "https://sp.example.org/acs/slash",
+           SP1_UC: "https://sp.example.org/acs/upper", SP1_HOST: "https://sp.example.org/acs/host",
+           SP1[:-1]: "https://sp.example.org/acs/chopped"}
+
+
+def bindstr_layouts():
+    """(name, layout): SP1's endpoints registered under binding strings that contain / are contained in /
+    differ in case from the standard ones, alone and next to the standard binding, in both orders"""
+    a, ab, b, c = LOCS
+    out = []
+    k = 0
+    for m in MD_BINDINGS:
+        out.append(("only:" + m, [[entity(SP1, [_acs_desc([(m, a)], k)])], [SP2_ENT]]))
+        for eps in ([(m, a), (POST, b)], [(POST, a), (m, b)], [(m, a), (POST, a)]):
+            k += 1
+            out.append(("pair:%s|%s%s" % (eps[0][0], eps[1][0], "@same" if eps[0][1] == eps[1][1] else ""),
+                        [[entity(SP1, [_acs_desc(eps, k)])], [SP2_ENT]]))
+    # three generations of the same binding in one descriptor, and the long one in a second descriptor / second source
+    out.append(("chain", [[entity(SP1, [_acs_desc([(B_HTTP, a), (SS, b), (POST, c)], 1)])], [SP2_ENT]]))
+    out.append(("two-descs", [[entity(SP1, [_acs_desc([(SS, a)], 0), _acs_desc([(POST, b)], 0, first_index=1)])], [SP2_ENT]]))
+    out.append(("two-sources-long-first", [[entity(SP1, [_acs_desc([(SS, a)], 0)])],
+                                           [entity(SP1, [_acs_desc([(POST, b)], 0, first_index=1)])], [SP2_ENT]]))
+    out.append(("two-sources-long-later", [[entity(SP1, [_acs_desc([(REDIRECT, a)], 0)])],
+                                           [entity(SP1, [_acs_desc([(SS, b), (POST_LC, c)], 0, first_index=1)])], [SP2_ENT]]))
+    # logout / manage-name-id endpoints under such bindings
+    slo = [sv("single_logout_service", SS, "https://sp.example.org/slo/ss"),
+           sv("single_logout_service", POST, "https://sp.example.org/slo/p"),
+           sv("single_logout_service", SOAP + "-x", "https://sp.example.org/slo/soapx"),
+           sv("manage_name_id_service", POST_LC, "https://sp.example.org/mni/lc"),
+           sv("manage_name_id_service", REDIRECT, "https://sp.example.org/mni/r")]
+    out.append(("slo-mixed", [[entity(SP1, [_acs_desc([(POST, a)], 0) + slo])], [SP2_ENT]]))
+    slo2 = [sv("single_logout_service", B_HTTP, "https://sp.example.org/slo/http"),
+            sv("single_logout_service", SOAP.lower(), "https://sp.example.org/slo/soaplc"),
+            sv("manage_name_id_service", SS, "https://sp.example.org/mni/ss")]
+    out.append(("slo-only-near", [[entity(SP1, [_acs_desc([(SS, a)], 0) + slo2],
+                                          idp_slo=[(SS, "https://sp.example.org/idp-slo/ss")])], [SP2_ENT]]))
+    return out
+
+
+def _eid_ent(eid, k=0):
+    return entity(eid, [_acs_desc([(POST, EID_ACS[eid])], k) +
+                        [sv("single_logout_service", POST, EID_ACS[eid].replace("/acs/", "/slo/"))]])
+
+
+def eid_layouts():
+    """entity ids that differ from each other by a trailing slash / case / one character, spread over several
+    sources in every interesting order (the longer id in a later source, in an earlier one, in the same one)"""
+    out = []
+    out.append(("short-then-long", [[_eid_ent(SP1)], [_eid_ent(SP1_SL, 1)], [SP2_ENT], [_eid_ent(SP1_UC, 2)]]))
+    out.append(("long-then-short", [[_eid_ent(SP1_SL)], [_eid_ent(SP1_UC, 1)], [SP2_ENT], [_eid_ent(SP1, 2)]]))
+    out.append(("one-source", [[_eid_ent(SP1_UC), _eid_ent(SP1_SL, 1), _eid_ent(SP1, 2), _eid_ent(SP1_HOST)], [SP2_ENT]]))
+    out.append(("only-long", [[SP2_ENT], [_eid_ent(SP1_SL)], [_eid_ent(SP1_HOST, 1)]]))       # SP1 itself is NOT registered
+    out.append(("only-short", [[_eid_ent(SP1[:-1])], [SP2_ENT], [_eid_ent(SP1, 1)]]))         # a proper prefix id comes first
+    out.append(("only-chopped", [[_eid_ent(SP1[:-1])], [SP2_ENT]]))
+    return out
+
+
+EID_ISSUERS = [("sp1", SP1), ("sp1-slash", SP1_SL), ("sp1-upper", SP1_UC), ("sp1-host", SP1_HOST), ("sp1-chopped", SP1[:-1]),
+               ("sp1-slash-padded", " " + SP1_SL + "\n"), ("sp1-2slash", SP1 + "//"), ("sp1-scheme-upper", SP1.replace("https", "HTTPS")),
+               ("sp1-ext", SP1 + "x")]
+
+
+def _req(issuer, url, index, pb, bindings, tag, kind="authn", dt=""):
+    return dict(kind=kind, issuer=issuer, url=url, index=index, pb=pb, bindings=bindings, dt=dt, tag=tag)
+
+
+def bindstr_requests(layout, quick):
+    regs = registered(layout, SP1, "spsso", "assertion_consumer_service")
+    locs = []
+    for _, l, _ in regs:
+        if l not in locs:
+            locs.append(l)
+    ui = [("absent", None, "absent", None)] + [("registered%d" % n, l, "absent", None) for n, l in enumerate(locs)]
+    ui += [("unregistered", EVIL, "absent", None)]
+    ui += [("absent", None, "idx" + i, i) for i in sorted(set(i for _, _, i in regs)) + ["7"]]
+    out = []
+    for (pl, pb), (ul, u, il, i) in itertools.product([("absent", None)] + REQ_BINDINGS, ui):
+        out.append(_req(SP1, u, i, pb, None, ("sp1", ul, il, pl, "none")))
+    args = [(l, [b]) for l, b in REQ_BINDINGS]
+    args += [("simplesign-post", [SS, POST]), ("post-simplesign", [POST, SS]), ("http-post", [B_HTTP, POST]),
+             ("lower-post", [POST_LC, POST]), ("padded-post", [POST + " ", POST]), ("upper-slash-suffix", [POST_UC, POST_SL, "HTTP-POST"])]
+    args += SOAPISH
+    # quick tier: a bindings argument with no URL / the last registered URL / the last registered index / an unknown index
+    ui_args = [x for n, x in enumerate(ui) if not quick or x[0] == "absent" and x[2] in ("absent", "idx7") or
+               x[0] == "registered%d" % (len(locs) - 1) or (n == len(ui) - 2 and x[2] != "absent")]
+    for (bl, bs), (ul, u, il, i), (pl, pb) in itertools.product(args, ui_args, [("absent", None), ("post", POST), ("simplesign", SS)]):
+        if pl != "absent" and (quick or il != "absent"):
+            continue
+        out.append(_req(SP1, u, i, pb, bs, ("sp1", ul, il, pl, bl)))
+    # logout / manage name id: the same wrappers, descr_type given / defaulted / idpsso
+    lb = [("none", None)] + [(l, [b]) for l, b in REQ_BINDINGS if l not in ("space-post", "post-suffix", "base")]
+    lb += [("simplesign-post", [SS, POST]), ("soap", [SOAP]), ("soap-post", [SOAP, POST])] + SOAPISH
+    if any(s["type"] != "assertion_consumer_service" for src in layout for e in src if e["eid"] == SP1 for d in e["descs"] for s in d):
+        for kind, (bl, bs), dt in itertools.product(("logout", "manage_name_id"), lb, ("", "spsso", "idpsso")):
+            out.append(_req(SP1, None, None, None, bs, ("sp1", kind, bl, dt or "default", bl), kind=kind, dt=dt))
+    else:
+        for (bl, bs) in SOAPISH:     # the SOAP short-cut is an exact list comparison for every message class
+            out.append(_req(SP1, None, None, None, bs, ("sp1", "logout", bl, "default", bl), kind="logout"))
+    return out
+
+
+def eid_requests(layout):
+    out = []
+    for (sl, iss) in EID_ISSUERS:
+        eid = iss.strip()
+        own = EID_ACS.get(eid)
+        urls = [("absent", None)] + [("acs-of:" + k.replace(SP1, "sp1"), v) for k, v in sorted(EID_ACS.items())]
+        for (ul, u), (il, i), (pl, pb), (bl, bs) in itertools.product(
+                urls, [("absent", None), ("idx0", "0")], [("absent", None), ("post", POST)], [("none", None), ("post", [POST])]):
+            if u and i:
+                continue
+            out.append(_req(iss, u, i, pb, bs, (sl, ul, il, pl, bl)))
+        for kind, (bl, bs), dt in itertools.product(("logout", "manage_name_id"), [("none", None), ("post", [POST])], ("", "spsso")):
+            out.append(_req(iss, None, None, None, bs, (sl, kind, bl, dt or "default", bl), kind=kind, dt=dt))
+    return out
+
+
+BINDSTR_PREFS = [
+    ("default", None),
+    ("simplesign-first", {"assertion_consumer_service": [SS, POST], "single_logout_service": [SS, SOAP + "-x", POST]}),
+    ("near-misses-only", {"assertion_consumer_service": [B_HTTP, POST_UC, POST + " "], "single_logout_service": [SOAP.lower(), B_HTTP],
+                          "manage_name_id_service": [POST_LC]}),
+    ("post-then-long", {"assertion_consumer_service": [POST, SS, POST_LC], "manage_name_id_service": [SS, REDIRECT]}),
+]
+
+
+def run_bindstr(ctx):
+    """unit response_args_binding_strings: one correspondence over (layout, preferred_binding, request)"""
+    lays = [(("bindstr", n), l) for n, l in bindstr_layouts()]
+    elays = [(("eid", n), l) for n, l in eid_layouts()]
+    cases, terms, ptab = [], [], []
+    with env.Clock(env.NOW):
+        for k, (lid, layout) in enumerate(lays + elays):
+            terms.append(layout_coq(layout))
+            for pn, pref in BINDSTR_PREFS:
+                if lid[0] == "eid":
+                    if pn != "default":
+                        continue
+                    reqs = eid_requests(layout)
+                else:
+                    reqs = bindstr_requests(layout, ctx.quick)
+                    if pn != "default":   # the preference only matters when neither bindings nor ProtocolBinding is given
+                        reqs = [r for r in reqs if r["bindings"] is None and not r["pb"]]
+                over = {"preferred_binding": pref} if pref else {}
+                idp = env.make_idp(layout_xml(layout), **over)
+                if not check_loaded(ctx, idp, layout, lid):
+                    break
+                acs_pref = list(idp.config.preferred_binding.get("assertion_consumer_service", []))
+                pcoq = pref_coq(idp)
+                if pcoq not in ptab:
+                    ptab.append(pcoq)
+                pi = ptab.index(pcoq)
+                # ONE long-lived server answers the whole request list of the layout
+                for r in reqs:
+                    x = call(idp.response_args, make_message(r), r["bindings"], r["dt"]) if r["dt"] else \
+                        call(idp.response_args, make_message(r), r["bindings"])
+                    got = observe(x)
+                    oracle(ctx, layout, lid, r, got, over=over)
+                    oracle_refused(ctx, layout, r, got, acs_pref)
+                    cases.append(dict(
+                        id=len(cases),
+                        coq="(%d%%nat, %d%%nat, %s, %s, %s)" % (k, pi, request_coq(r), cbindings(r["bindings"]), cstr(r["dt"])),
+                        impl=got, show=dict(layout=lid, preferred=pn, metadata=layout,
+                                            request={x: r[x] for x in ("kind", "issuer", "url", "index", "pb", "bindings", "dt")})))
+                    ctx.nontriv((lid, pn, r["kind"], r["issuer"], r["url"], r["index"], r["pb"], r["bindings"], r["dt"]))
+                    oc = "answered" if isinstance(got, list) else ("no-destination" if got is None else "refused")
+                    ctx.count("%s:%s:%s" % (lid[0], r["kind"], oc))
+                    if lid[0] == "eid":
+                        ctx.count("eid-issuer:%s:%s" % (r["tag"][0], oc))
+                    elif r["kind"] == "authn":
+                        ctx.count("binding-string:%s:%s" % (r["tag"][3] if r["bindings"] is None else "arg-" + r["tag"][4], oc))
+                    if len(cases) % 900 == 1:
+                        ctx.sample(dict(case=cases[-1]["show"], outcome=got))
+    ctx.count("layouts:binding-strings", len(lays))
+    ctx.count("layouts:entity-ids", len(elays))
+    fn = "run_ra_x" if EXACT else "run_ra"
+    typ = "(nat * nat * request * option (list str) * str)"
+    model = ("let layouts : list mdstore := %s in let prefs : list (list (svc * list str)) := %s in fun c : %s => "
+             "match c with (n, p, r, bs, dt) => %s (idp_config (nth p prefs []), nth n layouts [], r, bs, dt) end"
+             % ("[" + ";\n ".join(terms) + "]", "[" + ";\n ".join(ptab) + "]", typ, fn))
+    ctx.correspond("response_args_binding_strings", "Model.PickBinding", model, typ, cases, shard=700 if ctx.quick else 1500, timeout=900)
+    run_bindstr_pick(ctx, dict(lays)[("bindstr", "chain")], dict(elays)[("eid", "short-then-long")])
+
+
+def run_bindstr_pick(ctx, chain, eids):
+    """pick_binding called directly with an explicit entity_id / bindings (no request), and with a duck-typed request"""
+    cases, lts = [], []
+    for ln, (lname, layout) in enumerate((("chain", chain), ("eid", eids))):
+        idp = env.make_idp(layout_xml(layout))
+        lts.append(layout_coq(layout))
+        pc = pref_coq(idp)
+        for service, (bl, bs), (sl, eid), dt in itertools.product(
+                ["assertion_consumer_service", "single_logout_service"],
+                [("none", None)] + [(l, [b]) for l, b in REQ_BINDINGS] + [("simplesign-post", [SS, POST]), ("http-post", [B_HTTP, POST])],
+                [(l, e.strip()) for l, e in EID_ISSUERS if l != "sp1-slash-padded"], ["", "spsso"]):
+            got = observe(call(idp.pick_binding, service, bs, dt, None, eid))
+            cases.append(dict(id=len(cases), coq="(%d%%nat, %s, %s, %s, %s)" % (ln, SVC[service], cbindings(bs), cstr(dt), cstr(eid)),
+                              impl=got, show=dict(layout=lname, service=service, bindings=bs, entity_id=eid, descr_type=dt)))
+            r = _req(eid, None, None, None, bs, (sl, service, bl, dt or "default", bl),
+                     kind="authn" if service == "assertion_consumer_service" else "logout", dt=dt)
+            oracle(ctx, layout, ("pick_binding", lname), r, got, site="pick_binding")
+            ctx.nontriv(("pbs", lname, service, bs, eid, dt))
+            ctx.count("pick_binding:binding-strings:%s" % ("answered" if isinstance(got, list) else "refused"))
+    fn = "run_pb_x" if EXACT else "run_pb"
+    typ = "(nat * svc * option (list str) * str * str)"
+    model = ("let mds : list mdstore := [%s] in fun c : %s => match c with (n, s, bs, dt, eid) => "
+             "%s (idp_config %s, nth n mds [], s, bs, dt, None, eid) end" % (";\n ".join(lts), typ, fn, pc))
+    ctx.correspond("pick_binding_binding_strings", "Model.PickBinding", model, typ, cases, shard=600)
 
 
 class Duck(object):
@@ -731,7 +991,7 @@ def replay(ctx, payload):
         print("no concrete input in this replay file (broken obligation / correspondence): see its fields")
         return 0
     layout, r = inp["layout"], inp["request"]
-    idp = env.make_idp(layout_xml(layout))
+    idp = env.make_idp(layout_xml(layout), **(inp.get("over") or {}))
     with env.Clock(env.NOW):
         x = call(idp.response_args, make_message(r), r["bindings"], r["dt"] or "")
     print("registered for issuer:", registered(layout, (r["issuer"] or "").strip(), r["dt"] or "spsso", KIND_SERVICE.get(r["kind"], "")))
